@@ -104,6 +104,33 @@ def cases(ctx):
                        spec=lambda ans, root=root, p=p: (f's:bip32 {root} {pline(p)}', ans))
             yield Case(f'hd_key {name} {net} {1 if net == "mainnet" else 0} {net}:{hx(wif_pfx(net))}', 'ms', nontrivial=True, tag='key',
                        spec=lambda ans, root=root, p=p: (f's:bip32 {root} {pline(p)}', ans))
+    # keys with a telling first or last byte: a 32-byte secret that starts with the network's own WIF version byte (0x80 / 0xef), with
+    # 0x00, or ends in 0x01 (the WIF compression marker) survives any amount of random sampling untested (1 in 128 keys).  Hardened
+    # children of the master key need only HMAC-SHA512, so the harness searches m/i' for them directly.
+    NN = 0xFFFFFFFFFFFFFFFFFFFFFFFFFFFFFFFEBAAEDCE6AF48A03BBFD25E8CD0364141
+    for _ in range(ctx.n(2, 40)):
+        mn = BIP39Mnemonic.from_entropy(entropy=G.rbytes(rng, 16).hex(), language='english')
+        seed = hashlib.pbkdf2_hmac('sha512', mn.encode(), b'mnemonic', 2048, 64)
+        I = hm.new(b'Bitcoin seed', seed, hashlib.sha512).digest()
+        k, c = int.from_bytes(I[:32], 'big'), I[32:]
+        hits = {}
+        for i in range(H, H + ctx.n(1500, 6000)):
+            J = hm.new(c, b'\x00' + k.to_bytes(32, 'big') + i.to_bytes(4, 'big'), hashlib.sha512).digest()
+            ck = ((int.from_bytes(J[:32], 'big') + k) % NN).to_bytes(32, 'big')
+            cls = ('first-80' if ck[0] == 0x80 else 'first-ef' if ck[0] == 0xef else 'first-00' if ck[0] == 0 else
+                   'last-01' if ck[-1] == 1 else 'first-6f-c4' if ck[0] in (0x6f, 0xc4, 0x05) else None)
+            if cls and len(hits.setdefault(cls, [])) < 2: hits[cls].append(i)
+        root = 'mn ' + hx(mn.encode())
+        for net in NETS:
+            wno += 1; name = f'w{wno}'
+            yield Case(f'hd_new {name} {net} {root} 0', 'ms', nontrivial=True, tag='new-mn', spec=lambda ans, root=root: (f's:bip32 {root} 0', ans))
+            for cls, idxs in sorted(hits.items()):
+                for i in idxs:
+                    ctx.count('key-byte-' + cls)
+                    yield Case(f'hd_path {name} {net} 1 {i}', 'ms', nontrivial=True, tag='path-' + cls,
+                               spec=lambda ans, root=root, i=i: (f's:bip32 {root} 1 {i}', ans))
+                    yield Case(f'hd_key {name} {net} {1 if net == "mainnet" else 0} {net}:{hx(wif_pfx(net))}', 'ms', nontrivial=True, tag='key-' + cls,
+                               spec=lambda ans, root=root, i=i: (f's:bip32 {root} 1 {i}', ans))
     # the parameter model of the third-party object: with and without clean_derivation
     for _ in range(ctx.n(8, 200)):
         mn = BIP39Mnemonic.from_entropy(entropy=G.rbytes(rng, 16).hex(), language='english')
